@@ -382,8 +382,27 @@ func clampedNonNeg(v ssa.Value, depth int) (bool, string) {
 		if x.Value != nil && x.Float64() >= 0 {
 			return true, "constant " + x.Value.String()
 		}
+	case *ssa.Phi:
+		// every value merged here is clamped (an unreachable `if x < 0 { x = 0 }` after the clamp, for one)
+		for _, e := range x.Edges {
+			if ok, _ := clampedNonNeg(e, depth); !ok {
+				return false, ""
+			}
+		}
+		if len(x.Edges) > 0 {
+			return true, "merge of clamped values"
+		}
 	case *ssa.Call:
 		t := an.Callee(x)
+		if an.IsBuiltinCall(x, "max") {
+			// the builtin max(k ≥ 0, ·): same clamp as math.Max
+			for _, a := range x.Call.Args {
+				if ok, why := clampedNonNeg(a, depth); ok {
+					return true, "max(" + why + ", ·)"
+				}
+			}
+			return false, ""
+		}
 		if an.IsFunc(t, "math", "Max") {
 			for _, a := range x.Call.Args {
 				if ok, why := clampedNonNeg(a, depth); ok {
